@@ -37,6 +37,11 @@ func (n *rabNode) dealer() *rvss.Dealer {
 }
 
 func c11RabinScenario(c *kc.Ctx, mock bool, n, t int, faults map[int]string, rng *kc.Rng) {
+	c11RabinScenarioV(c, mock, n, t, faults, nil, rng)
+}
+
+// c11RabinScenarioV: victims[i] fixes the target of faulty party i (otherwise random).
+func c11RabinScenarioV(c *kc.Ctx, mock bool, n, t int, faults map[int]string, victims map[int]int, rng *kc.Rng) {
 	w := newDkgWorld(mock, rng.Fork("world"))
 	desc := fmt.Sprintf("rabin mock=%v n=%d t=%d faults=%v", mock, n, t, faults)
 	viol := func(key, what string) {
@@ -52,6 +57,9 @@ func c11RabinScenario(c *kc.Ctx, mock bool, n, t int, faults map[int]string, rng
 	for i, f := range faults {
 		nodes[i].fault = f
 		nodes[i].victim = (i + 1 + rng.Intn(n-1)) % n
+		if v, ok := victims[i]; ok {
+			nodes[i].victim = v
+		}
 	}
 	for i := 0; i < n; i++ {
 		g, err := rdkg.NewDistKeyGenerator(w.suite, nodes[i].sec, pubs, uint32(t))
@@ -81,6 +89,25 @@ func c11RabinScenario(c *kc.Ctx, mock bool, n, t int, faults map[int]string, rng
 		if !run(func() { deals, _ = d.gen.Deals() }) || deals == nil {
 			viol("deals-panic", fmt.Sprintf("Deals() of node %d failed", d.i))
 			return
+		}
+		if d.fault == "badShareMany" {
+			// invalid shares for n-t honest participants, never justified: the dealer (own approval included) keeps exactly t-1
+			// approvals besides the one a colluding participant may add
+			dl := d.dealer()
+			left := n - t
+			for v := 0; v < n && left > 0; v++ {
+				if v == d.i || nodes[v].fault != "none" {
+					continue
+				}
+				if pd, err := dl.PlaintextDeal(v); err == nil {
+					bad := *pd
+					bad.SecShare = &share.PriShare{I: pd.SecShare.I, V: w.suite.Scalar().Add(pd.SecShare.V, w.suite.Scalar().One())}
+					if e, err := dl.EncryptDealFor(v, &bad); err == nil {
+						deals[v] = &rdkg.Deal{Index: uint32(d.i), Deal: e}
+						left--
+					}
+				}
+			}
 		}
 		if d.fault == "badShareJustified" || d.fault == "badShareUnjustified" || d.fault == "thresholdOne" || d.fault == "badShareBadJustification" {
 			dl := d.dealer()
@@ -132,8 +159,31 @@ func c11RabinScenario(c *kc.Ctx, mock bool, n, t int, faults map[int]string, rng
 			// every recipient gets its own copy of the message, as on a network (the library records and
 			// later updates the Response object it is handed)
 			rc := rabCopyResponse(r)
+			if sender := nodes[r.Response.Index]; sender.fault == "equivocate" && int(r.Index) == sender.victim {
+				// a participant that signs both an approval and a complaint about the same deal: every node
+				// receives both, in an order of the adversary's choice
+				alt := &rvss.Response{SessionID: r.Response.SessionID, Index: r.Response.Index, Approved: !r.Response.Approved}
+				if sig, e := schnorr.Sign(w.suite, sender.sec, alt.Hash(w.suite)); e == nil {
+					alt.Signature = sig
+					ac := &rdkg.Response{Index: r.Index, Response: alt}
+					first, second := rc, ac
+					if x.i%2 == 1 {
+						first, second = ac, rc
+					}
+					run(func() { j, _ = x.gen.ProcessResponse(first) })
+					var j2 *rdkg.Justification
+					run(func() { j2, _ = x.gen.ProcessResponse(second) })
+					if j == nil {
+						j = j2
+					}
+					if j != nil && x.fault != "badShareUnjustified" && x.fault != "badShareMany" {
+						justs = append(justs, j)
+					}
+					continue
+				}
+			}
 			run(func() { j, _ = x.gen.ProcessResponse(rc) })
-			if j != nil && x.fault != "badShareUnjustified" {
+			if j != nil && x.fault != "badShareUnjustified" && x.fault != "badShareMany" {
 				justs = append(justs, j)
 			}
 		}
@@ -322,7 +372,15 @@ func c11RabinScenario(c *kc.Ctx, mock bool, n, t int, faults map[int]string, rng
 		fin := false
 		run(func() { fin = x.gen.Finished() })
 		if fin {
-			run(func() { dks, err = x.gen.DistKeyShare() })
+			if !run(func() { dks, err = x.gen.DistKeyShare() }) {
+				key := "distkeyshare-panic"
+				for i, f := range faults {
+					if f == "badShareUnjustified" && nodes[i].victim == x.i {
+						key = "unjustified-dealer-qualified" // same root cause, seen from the victim
+					}
+				}
+				viol(key, fmt.Sprintf("DistKeyShare panics at honest node %d (QUAL %v)", x.i, x.gen.QUAL()))
+			}
 		}
 		if dks == nil && onlyBadCommits {
 			viol("reconstruction-incomplete", fmt.Sprintf("one dealer published wrong secret commitments for one node; honest node %d finished=%v err=%v", x.i, fin, err))
@@ -423,6 +481,9 @@ func c11RabinScenario(c *kc.Ctx, mock bool, n, t int, faults map[int]string, rng
 		if x.fault == "badShareBadJustification" && badJustSent[x.i] && in {
 			viol("bad-justification-dealer-qualified", fmt.Sprintf("dealer %d answered a complaint with an invalid justification and is in QUAL %v", x.i, ref.qual))
 		}
+		if x.fault == "badShareUnjustified" && in && nodes[x.victim].fault == "none" {
+			viol("unjustified-dealer-qualified", fmt.Sprintf("dealer %d sent an invalid share to honest node %d, never justified it, and is in QUAL %v", x.i, x.victim, ref.qual))
+		}
 		if x.fault == "absent" && in {
 			viol("absent-dealer-qualified", fmt.Sprintf("absent dealer %d is in QUAL %v", x.i, ref.qual))
 		}
@@ -453,6 +514,23 @@ func c11Rabin(c *kc.Ctx, rng *kc.Rng) {
 						scen++
 					}
 				}
+			}
+		}
+	}
+	// colluding pair: a dealer with exactly t-1 honest approvals and a participant that equivocates about it
+	for _, mock := range []bool{true, false} {
+		for _, nt := range [][2]int{{5, 3}, {6, 4}, {6, 3}, {7, 4}} {
+			n, t := nt[0], nt[1]
+			if n > 6 && !c.Thorough() {
+				continue
+			}
+			for k := 0; k < c.N(2, 8); k++ {
+				d := rng.Intn(n)
+				j := (d + 1 + rng.Intn(n-1)) % n
+				sc := rng.Fork(fmt.Sprint("re", mock, n, t, k))
+				faults := map[int]string{d: "badShareMany", j: "equivocate"}
+				c11RabinScenarioV(c, mock, n, t, faults, map[int]int{j: d}, sc)
+				scen++
 			}
 		}
 	}
